@@ -8,7 +8,7 @@ from ..absint import Interp
 from ..model import AnalysisError, ClassInfo, FuncInfo, dotted, norm, walk_no_nested
 from ..report import rule
 from ..shape import Alt, Attr, CallV, Lit, ListOf, Node, OrV, Param, Seq, Shaper, alts, chain, is_lit, nodes, seq_items
-from ..util import calls_named, cfg_of, is_const, is_name, key, kw, names_in, strip_pre
+from ..util import argv, allargs, calls_named, cfg_of, is_const, is_name, key, kw, names_in, strip_pre
 
 PB = "plugins.base:Plugin"
 PM = "plugins.manager:PluginManager"
@@ -43,7 +43,7 @@ def c15_r2(ctx):
     if len(lps) == 1 and norm(lps[0].iter) == "self.plugins":
         rets = [n for n in ap.node.body if isinstance(n, ast.Return)]
         for st in lps[0].body:
-            if isinstance(st, ast.Assign) and isinstance(st.targets[0], ast.Name) and isinstance(st.value, ast.Call) and st.value.args and is_name(st.value.args[0], st.targets[0].id) \
+            if isinstance(st, ast.Assign) and isinstance(st.targets[0], ast.Name) and isinstance(st.value, ast.Call) and allargs(st.value) and is_name(allargs(st.value)[0], st.targets[0].id) \
                     and len(rets) == 1 and is_name(rets[0].value, st.targets[0].id):
                 carried = True
         if any(isinstance(n, (ast.Break, ast.Return, ast.Continue)) for n in ast.walk(lps[0])):
@@ -74,7 +74,7 @@ def c15_r2(ctx):
         good = len(body) == 1 and isinstance(body[0], ast.Return) and isinstance(body[0].value, ast.Call) and dotted(body[0].value.func) == "self._apply_plugins_on_object"
         if good:
             c = body[0].value
-            good = len(c.args) >= 2 and is_const(c.args[0], name) and is_name(c.args[1], params[0])
+            good = len(allargs(c)) >= 2 and is_const(allargs(c)[0], name) and is_name(allargs(c)[1], params[0])
             rest = params[1:]
             passed = {k.arg: k.value for k in c.keywords}
             pos = [a for a in c.args[2:]]
@@ -136,7 +136,7 @@ def _ast_stores(fi: FuncInfo) -> Set[str]:
         if isinstance(n, (ast.Attribute, ast.Subscript)) and isinstance(n.ctx, (ast.Store, ast.Del)):
             root = n
             while isinstance(root, (ast.Attribute, ast.Subscript, ast.Call)):
-                root = root.value if not isinstance(root, ast.Call) else (root.args[1] if len(root.args) > 1 else root.func)
+                root = root.value if not isinstance(root, ast.Call) else (allargs(root)[1] if len(allargs(root)) > 1 else root.func)
             if isinstance(root, ast.Name) and root.id in ("self",) or (isinstance(root, ast.Name) and root.id in locals_built and isinstance(n, ast.Subscript) and isinstance(n.value, ast.Name)):
                 continue
             t = norm(n)
@@ -172,7 +172,8 @@ def c15_r4(ctx):
     eo = repo.func("contrib.extract_operations:ExtractOperationsPlugin.generate_client_method")
     good = norm(eo.node.body[0]) == "method_def.body = method_def.body[1:]"
     st = [n for n in walk_no_nested(eo.node) if isinstance(n, ast.If) and norm(n.test) == "keyword.arg == 'query'"]
-    good = good and len(st) == 1 and len(st[0].body) == 1 and norm(st[0].body[0]).startswith("keyword.value = generate_name(self._operations_variables[")
+    good = good and len(st) == 1 and len(st[0].body) == 1 and isinstance(st[0].body[0], ast.Assign) and norm(st[0].body[0].targets[0]) == "keyword.value" \
+        and isinstance(st[0].body[0].value, ast.Call) and dotted(st[0].body[0].value.func) == "generate_name" and norm(argv(st[0].body[0].value, 0, "name") or ast.Constant(0)).startswith("self._operations_variables[")
     ctx.check(good, key(eo, "rebinding"), "ExtractOperations must drop only the operation-string statement and rebind only the query keyword", eo.loc(), okmsg="ExtractOperations: body[1:], query=<OPERATION>_GQL")
     gi = repo.func("contrib.extract_operations:ExtractOperationsPlugin.generate_init_module")
     g_ = cfg_of(gi)
@@ -282,7 +283,7 @@ def c15_r7(ctx):
             if d == "ast.ImportFrom":
                 mod, lvl = kw(c, "module"), kw(c, "level")
             elif d == "generate_import_from":
-                mod, lvl = kw(c, "from_") or (c.args[1] if len(c.args) > 1 else None), kw(c, "level") or (c.args[2] if len(c.args) > 2 else None)
+                mod, lvl = kw(c, "from_") or (allargs(c)[1] if len(allargs(c)) > 1 else None), kw(c, "level") or (allargs(c)[2] if len(allargs(c)) > 2 else None)
             else:
                 continue
             if mod is None:
@@ -360,7 +361,7 @@ def c14_r1(ctx):
     good = len(c) == 1 and len(lp) == 1 and isinstance(lp[0].target, ast.Tuple)
     if good:
         org = norm(lp[0].target.elts[1].elts[0]) if isinstance(lp[0].target.elts[1], ast.Tuple) else None
-        good = org is not None and len(c[0].args) >= 3 and norm(c[0].args[2]) == org
+        good = org is not None and len(allargs(c[0])) >= 3 and norm(allargs(c[0])[2]) == org
     ctx.check(good, key(cl, "org name source"), "org_name is not the schema's field name", cl.loc(), okmsg="org_name = key of definition.fields")
     # root operations
     co = repo.func("client_generators.custom_operation:CustomOperationGenerator._generate_method")
@@ -379,7 +380,7 @@ def c14_r1(ctx):
     ga = repo.func("client_generators.custom_arguments:ArgumentGenerator.generate_arguments")
     c = calls_named(ga.node, "self._accumulate_return_arguments")
     lp = [n for n in ga.node.body if isinstance(n, ast.For)]
-    good = good and len(c) == 1 and len(lp) == 1 and norm(lp[0].iter) == "operation_args.items()" and norm(c[0].args[2]) == norm(lp[0].target.elts[0])
+    good = good and len(c) == 1 and len(lp) == 1 and norm(lp[0].iter) == "operation_args.items()" and norm(allargs(c[0])[2]) == norm(lp[0].target.elts[0])
     ctx.check(good, key(ar, "argument names"), "argument dict keys are not the GraphQL argument names", ar.loc(), okmsg="arguments keyed by GraphQL argument name")
     # runtime: ArgumentNode name = v['name'] = original key
     ta = repo.func(BO + "GraphQLField.to_ast")
@@ -403,8 +404,8 @@ def c14_r2(ctx):
                 for c in ast.walk(strip_pre(eff)):
                     if isinstance(c, ast.Call) and dotted(c.func) == "generate_dict":
                         vals = kw(c, "values")
-                        if isinstance(vals, ast.List) and vals.elts and isinstance(vals.elts[0], ast.Call) and vals.elts[0].args:
-                            txts.append(norm(vals.elts[0].args[0]))
+                        if isinstance(vals, ast.List) and vals.elts and isinstance(vals.elts[0], ast.Call) and allargs(vals.elts[0]):
+                            txts.append(norm(allargs(vals.elts[0])[0]))
     if len(txts) < 2:
         raise AnalysisError("_accumulate_return_arguments: emitted type string not found")
     txt = " | ".join(sorted(set(txts)))
@@ -455,7 +456,7 @@ def c14_r4(ctx):
     terms: List[str] = []
     if len(outs) == 1 and outs[0].value is not None:
         v = outs[0].deref(outs[0].value)
-        raw = union_terms(v) + [norm(strip_pre(c.args[0])) for m in (outs[0].muts(outs[0].value.id) if isinstance(outs[0].value, ast.Name) else []) for c in [m] if isinstance(c, ast.Call) and c.args]
+        raw = union_terms(v) + [norm(strip_pre(allargs(c)[0])) for m in (outs[0].muts(outs[0].value.id) if isinstance(outs[0].value, ast.Name) else []) for c in [m] if isinstance(c, ast.Call) and c.args]
         for t in raw:
             expanded = False
             for hname, h in gf.methods.items():
@@ -497,7 +498,7 @@ def c14_r4(ctx):
                 return True
             return None
         o = Interp(ta, at, is_effect=eff).run()
-        args = {norm(x.deref(c.args[1])) for x in o for c in x.effects if len(c.args) > 1}
+        args = {norm(x.deref(allargs(c)[1])) for x in o for c in x.effects if len(allargs(c)) > 1}
         want = {"used_names"} if given else {"set()"}
         ctx.check(bool(o) and args == want, key(ta, f"used_names given={given}"),
                   f"to_ast called {'with the parent' if given else 'without a'} used-names set passes {sorted(args)} on (expected {sorted(want)}): "
@@ -547,7 +548,7 @@ def c14_r7(ctx):
         t = kw(el, "targets") if isinstance(el, ast.Call) else None
         if isinstance(t, ast.List) and t.elts:
             e0 = t.elts[0]
-            order.append(e0.value if isinstance(e0, ast.Constant) else (e0.args[0].value if isinstance(e0, ast.Call) and e0.args and isinstance(e0.args[0], ast.Constant) else norm(e0)))
+            order.append(e0.value if isinstance(e0, ast.Constant) else (allargs(e0)[0].value if isinstance(e0, ast.Call) and allargs(e0) and isinstance(allargs(e0)[0], ast.Constant) else norm(e0)))
         elif isinstance(el, ast.Call) and dotted(el.func) == "generate_return":
             order.append("<return>")
     ctx.check(order == ["selections", "combined_variables", "variable_definitions", "operation_ast", "response", "<return>"], key(ex, "pipeline"),
